@@ -826,11 +826,18 @@ fn dispatch<C: CI>(op: Op, a: &[&[u8]]) -> R<Vec<Vec<u8>>> {
             let ci = Codec::from_u8(*arg(a, 1)?.first().ok_or("codec")?).ok_or("codec")?;
             with_ty!(ty, C, do_exercise(ci, arg(a, 2)?))
         }
-        Op::EnumNew => Ok(vec![Vec::from(&SecretKeyEnum::new(tag))]),
-        Op::EnumFromHash => Ok(vec![Vec::from(&SecretKeyEnum::from_hash(tag, arg(a, 0)?))]),
+        Op::EnumNew => {
+            let v = SecretKeyEnum::new(tag);
+            Ok(vec![Vec::from(&v), serde_json::to_vec(&v).map_err(e)?])
+        }
+        Op::EnumFromHash => {
+            let v = SecretKeyEnum::from_hash(tag, arg(a, 0)?);
+            Ok(vec![Vec::from(&v), serde_json::to_vec(&v).map_err(e)?])
+        }
         Op::EnumRandom => {
             let rng = ChaCha20Rng::from_seed(seed32(arg(a, 0)?)?);
-            Ok(vec![Vec::from(&SecretKeyEnum::random(tag, rng))])
+            let v = SecretKeyEnum::random(tag, rng);
+            Ok(vec![Vec::from(&v), serde_json::to_vec(&v).map_err(e)?])
         }
         Op::EnumFromBe => {
             let o: Option<SecretKeyEnum> = SecretKeyEnum::from_be_bytes(arg(a, 0)?).into();
